@@ -282,11 +282,17 @@ def rerun(case: dict, rules: Optional[str] = None) -> dict:
     return fixrec.record_case(c)
 
 
+_DIAG = {"n": 0}
+
+
 def culprit_by_single_rule(trace: dict, bad: Callable[[dict], bool]) -> str:
     """Diagnosis only: the smallest evidence of which rule is responsible for an end-to-end clause — a rule
     that reproduces it when run alone, else the set of rules that adopted fixes in the failing run."""
     rules = sorted({a["rule"] for a in adoptions(trace)} | {a["rule"] for a in adoptions(trace, second=True)})
     if len(rules) <= 1:
+        return "+".join(rules)
+    _DIAG["n"] += 1
+    if _DIAG["n"] > 40:          # diagnosis budget per run; beyond it the signature keeps the rule set
         return "+".join(rules)
     for r in rules:
         try:
